@@ -161,11 +161,27 @@ def mesh_case(draw, links: bool = False, fault: bool = False, dims_pool=None, me
     return case
 
 
+ROWS_3D = [(3, 1, 1), (4, 1, 1), (1, 3, 1), (1, 1, 3), (1, 4, 1)]
+ROWS_2D = [[3, 1], [4, 1], [1, 3], [1, 4]]
+
+
 @st.composite
-def sketch_case(draw, links: bool = False, fault: bool = False, method: Optional[str] = None):
-    topo = draw(st.sampled_from(["grid", "grid", "disk"]))
+def far_follower_case(draw, kind: str):
+    """a row of 3-4 cells, leader in the first layer of points, (first) follower in the last one"""
+    if kind == "mesh":
+        case = draw(mesh_case(links=True, dims_pool=ROWS_3D))
+    else:
+        case = draw(sketch_case(links=True, rows=True))
+    case["links"] = case["links"][:2]
+    case["far"] = {"lead": draw(st.integers(0, 7)), "follow": draw(st.integers(0, 7))}
+    return case
+
+
+@st.composite
+def sketch_case(draw, links: bool = False, fault: bool = False, method: Optional[str] = None, rows: bool = False):
+    topo = "grid" if rows else draw(st.sampled_from(["grid", "grid", "disk"]))
     if topo == "grid":
-        n = [draw(st.integers(2, 3)), draw(st.integers(2, 3))]
+        n = list(draw(st.sampled_from(ROWS_2D))) if rows else [draw(st.integers(2, 3)), draw(st.integers(2, 3))]
         npts = (n[0] + 1) * (n[1] + 1)
         widths = [[draw(st.floats(0.5, 2.0)) for _ in range(n[a])] for a in range(2)]
     else:
@@ -252,6 +268,24 @@ class Model:
             sk = case["sk"]
             self.topology = "sketch:" + (sk["topo"] if sk["topo"] == "disk" else "x".join(map(str, sk["n"])))
         self.addressing = [list(c.indexes) for c in self.optimizer.grid.cells]
+        self.ends = self.end_layers(case) if case.get("far") else None
+
+    def end_layers(self, case):
+        """vertex indices of the first and the last layer of points along the longest direction of the lattice"""
+        pts = self.positions()
+        if self.kind == "mesh":
+            widths = case["lat"]["widths"]
+            axis = int(np.argmax([len(w) for w in widths]))
+            direction = np.eye(3)[axis]
+        else:
+            widths = case["sk"]["widths"]
+            axis = int(np.argmax([len(w) for w in widths]))
+            direction = xm.frame(case["sk"]["a"], case["sk"]["b"])[axis]
+        x = pts @ direction
+        x = x - x.min()  # jitter is <= 0.2 of the smallest width, so half a width separates the layers
+        low = [int(i) for i in np.nonzero(x < 0.5 * widths[axis][0])[0]]
+        high = [int(i) for i in np.nonzero(x > x.max() - 0.5 * widths[axis][-1])[0]]
+        return low, high
 
     def preminimise(self, case) -> None:
         """moves the vertices that will be clamped to (about) the minimum of the SUMMED quality, with the harness's own
@@ -293,9 +327,18 @@ class Model:
         return float(grid.quality)
 
 
-def pick_vertices(case, n: int):
-    """distinct vertex indices for the clamps and the followers (one per link that still finds a free vertex)"""
+def pick_vertices(case, n: int, ends=None):
+    """distinct vertex indices for the clamps and the followers (one per link that still finds a free vertex).
+    With case["far"] and the two end layers of a row of cells given, the first clamp sits in the low end layer and the
+    first follower in the high one (cells that neither contain the leader nor share a face with one that does)"""
+    links = links_of(case)
+    far = case.get("far") if ends else None
     used: List[int] = []
+    if far:
+        used.append(ends[0][far["lead"] % len(ends[0])])
+        if links:
+            used.append(ends[1][far["follow"] % len(ends[1])])
+    fixed = list(used)
 
     def free_index(v: int) -> int:
         v %= n
@@ -304,8 +347,13 @@ def pick_vertices(case, n: int):
         used.append(v)
         return v
 
-    clamp_idx = [free_index(c["v"]) for c in case["clamps"][: max(1, n - 1)]]
-    followers = [free_index(ln["f"]) for ln in links_of(case)[: n - len(used)]]
+    clamp_idx = [fixed[0] if far and k == 0 else free_index(c["v"]) for k, c in enumerate(case["clamps"][: max(1, n - 1)])]
+    followers = []
+    for k, ln in enumerate(links):
+        if far and k == 0:
+            followers.append(fixed[1])
+        elif len(used) < n:
+            followers.append(free_index(ln["f"]))
     return clamp_idx, followers
 
 
@@ -418,7 +466,7 @@ def run_and_check(case, ctx: Ctx, fault_at: Optional[int]) -> Probe:
     opt = model.optimizer
     before = model.positions()
     n = len(before)
-    clamp_idx, follower_idx = pick_vertices(case, n)
+    clamp_idx, follower_idx = pick_vertices(case, n, model.ends)
     facts: Dict[str, Any] = {"target": model.kind, "topology": model.topology, "method": case["method"],
                              "iters": case["iters"], "fault": fault_at is not None}
 
@@ -751,6 +799,22 @@ FIXED_NEAR_MINIMUM = [
     dict(_case("mesh", _lat((3, 1, 1), {k: [0.9, -0.7, 0.8] if k % 2 else [-0.6, 0.8, -0.9] for k in range(16)}),
                [{"v": 0, "m": _FREE}, {"v": 5, "m": _FREE}], "SLSQP"), premin=True),
 ]
+# regular row, one neighbour of the leader displaced: the leader's move repairs the first cell a little while the same
+# move of the follower spoils the (perfect) last cell more - the step must be rolled back
+_J3 = {1: [0.0, 0.0, 1.0]}
+FIXED_FAR_MESH = [
+    dict(_case("mesh", _lat((3, 1, 1), _J3), [{"v": 0, "m": _FREE}], m, iters=1, links=[dict(_L_TRANS, f=0)]),
+         far={"lead": 0, "follow": 0})
+    for m in ("SLSQP", "Nelder-Mead")
+]
+_SK3 = {"topo": "grid", "n": [3, 1], "widths": [[1.0, 1.0, 1.0], [1.0]],
+        "jitter": [0.0, 0.0, 0.0, 1.0] + [0.0] * 12, "a": [1.0, 0.0, 0.0], "b": [0.0, 1.0, 0.0],
+        "origin": [0.5, -1.0, 2.0]}
+FIXED_FAR_SKETCH = [
+    dict(_case("sketch", _SK3, [{"v": 0, "m": _FREE}], m, iters=1, links=[dict(_L_TRANS, f=0)]),
+         far={"lead": 0, "follow": 0})
+    for m in ("SLSQP", "Powell")
+]
 FIXED_FAULT_MESH = [
     dict(_case("mesh", _lat((2, 1, 1), _ALL), [{"v": 0, "m": _FREE}, {"v": 1, "m": _FREE}], "SLSQP"), fault=f)
     for f in (0.0, 0.45, 0.8)
@@ -776,6 +840,11 @@ CELLS += [
          "1-2 free clamps on vertices that the harness first moves to the minimum of the summed quality (own Nelder-Mead "
          "on an own grid): the optimizer minimises the cells at the vertex only, so every step that is kept must have "
          "passed the whole-grid comparison", FIXED_NEAR_MINIMUM),
+    Cell("C13/mesh/far-follower", far_follower_case("mesh"), check_run, 4, 120,
+         "row of 3-4 hexahedra, leader in the first layer of vertices, first follower in the last one (cells that neither "
+         "contain the leader nor share a face with a cell that does)", FIXED_FAR_MESH),
+    Cell("C13/sketch/far-follower", far_follower_case("sketch"), check_run, 4, 120,
+         "the same on 3x1 / 4x1 sketches", FIXED_FAR_SKETCH),
     Cell("C13/mesh/fault", mesh_case(links=False, fault=True, dims_pool=DIMS_SMALL), check_fault, 5, 150,
          "dry run + run with ValueError('Degenerate Cell') at a drawn cell-quality evaluation: handled inside a step "
          "(grid restored) or raised with the mesh untouched", FIXED_FAULT_MESH),
